@@ -214,6 +214,28 @@ def run_case(case, workdir):
         return _run_ddl(ref, spec, dialect)
     except Crashed as c:
         return 'crashed', [('mapping:internal-error', c.message)], {}
+    except Rejected as r:
+        unfounded = _unfounded_rejection(case, r)
+        if unfounded is None:
+            raise
+        return 'refused-without-ground', [unfounded], {}
+
+
+def _unfounded_rejection(case, r):
+    """A rejection is Pony's right, but its stated ground can be checked against the spec: when Pony refuses the declarations
+    because some name 'is too long', the spec has to spell out a name longer than the dialect limit (my table: 63/64/30, 1024
+    for SQLite as pony documents).  Default names are Pony's own product and have to fit; a name that uses the limit exactly fits."""
+    text = str(r.exc)
+    if 'too long' not in text.lower():
+        return None
+    limit = M.NAME_LIMIT.get(case['dialect'], 1024)
+    longest = max([len(n) for n in explicit_names(case)] or [0])
+    if longest > limit:
+        return None
+    return ('rejection:name-not-too-long',
+            '%s refused the declarations with %s: %s -- but no declared name is longer than the %d characters %s allows (longest '
+            'explicit name: %d characters); default names are generated by Pony and a name of exactly %d characters fits'
+            % (r.stage, type(r.exc).__name__, text[:300], limit, case['dialect'], longest, limit))
 
 
 def _define(spec, db):
